@@ -32,12 +32,12 @@ ASSUMPTIONS = [
 ]
 
 KINDS = ["p2pkh", "p2wpkh", "p2sh-p2wpkh", "p2sh", "p2wsh", "p2sh-p2wsh"]
-BAD_SIG_CLASSES = ["sig-bitflip", "foreign-key-sig", "mis-keyed-sig", "sig-for-other-tx", "sig-hashtype-changed"]
+BAD_SIG_CLASSES = ["sig-bitflip", "foreign-key-sig", "mis-keyed-sig", "sig-for-other-tx", "sig-hashtype-changed", "sig-hashtype-changed-with-declared-type"]
 
 GATES = {
     "contracts-ran": ["PSBT.serialize", "PSBT.combine", "PSBTIn.finalize", "PSBT.final_tx"],
     "wallet-kinds": ["kind:" + k for k in KINDS],
-    "history-shapes": ["shape:sequential", "shape:parallel-fold", "shape:tree", "shape:mixed"],
+    "history-shapes": ["shape:sequential", "shape:parallel-fold", "shape:tree", "shape:mixed", "shape:slim-fold"],
     "threshold-both-sides": ["final:below-threshold-refused", "final:at-threshold-ok", "final:above-threshold-ok"],
     "order-groups": ["group:compared-multiple-histories"],
     "roundtrip": ["rt:created", "rt:signed", "rt:combined", "rt:finalized"],
@@ -185,7 +185,23 @@ def op_finalize(raw, wallet):
     p.finalize()
     fin = p.serialize()
     tx = p.final_tx()
+    # extracting the transaction must not change the PSBT it was extracted from
+    again = p.serialize()
+    if again != fin:
+        raise PsbtChangedByExtraction("serialize() after final_tx() differs from serialize() before it")
     return fin, tx.serialize()
+
+
+class PsbtChangedByExtraction(Exception):
+    pass
+
+
+def slim_copy(raw, wallet, who):
+    """The copy a cosigner's own updater would produce: only that cosigner's BIP32 derivations on the inputs."""
+    m = rp.decode(raw)
+    xfp = bytes.fromhex(wallet.xfps[who])
+    ins = [[(k, v) for k, v in imap if not (k[:1] == b"\x06" and v[:4] != xfp)] for imap in m["ins"]]
+    return rp.encode({"global": m["global"], "ins": ins, "outs": m["outs"]})
 
 
 def check_roundtrip(ctx, raw, wallet, stage):
@@ -230,6 +246,14 @@ def run_history(ctx, wallet, base, signer_cache, desc):
                 nxt.append(op_combine(parts[j + 1], parts[j], wallet) if j + 1 < len(parts) else parts[j])
             parts = nxt
         return parts[0]
+    if shape == "slim-fold":
+        # every signer works on a copy carrying only its own key derivations; the copies (and finally the
+        # updater's full copy) are folded together
+        parts = [op_sign(slim_copy(base, wallet, i), wallet, i)[0] for i in order]
+        x = parts[0]
+        for y in parts[1:]:
+            x = op_combine(x, y, wallet)
+        return op_combine(x, base, wallet)
     if shape == "mixed":
         # first two sign in sequence, the rest in parallel, combined into the chain
         x = base
@@ -259,6 +283,7 @@ def histories_for(rng, n, quick, m=1):
                     hs = [("sequential", perms[0]), ("parallel-fold", perms[-1][::-1] if len(perms) == 1 else perms[-1])]
                     if len(S) == n and n >= 2:
                         hs.append(("mixed", perms[len(perms) // 2]))
+                        hs.append(("slim-fold", perms[-1]))
                     if len(S) == n and n >= 3:
                         hs.append(("tree", perms[1]))
                 out[S] = hs
@@ -270,6 +295,8 @@ def histories_for(rng, n, quick, m=1):
                 hs.append(("parallel-fold", pi[::-1] if k % 2 else pi))
             if len(S) >= 2:
                 hs.append(("mixed", perms[0]))
+                hs.append(("slim-fold", perms[-1]))
+                hs.append(("slim-fold", perms[0]))
             if len(S) >= 3:
                 hs.append(("tree", perms[-1]))
             out[S] = hs
@@ -416,6 +443,11 @@ def bad_partial_sigs(ctx, rng, wallet, sc, base, cache):
             else:
                 t["locktime"] += 1
             mm["global"] = [(gk, tc.encode_stripped(t) if gk == b"\x00" else gv) for gk, gv in mm["global"]]
+        elif cls == "sig-hashtype-changed-with-declared-type":
+            # the input declares PSBT_IN_SIGHASH_TYPE = ALL, the signature's own trailing byte says otherwise
+            val2 = val[:-1] + bytes([rng.choice([2, 3, 0x81])])
+            mm["ins"][k] = [e for e in mm["ins"][k] if e[0] != b"\x03"] + [(b"\x03", (1).to_bytes(4, "little"))]
+            j = [n_ for n_, e in enumerate(mm["ins"][k]) if e[0] == key][0]
         else:  # sig-hashtype-changed
             val2 = val[:-1] + bytes([rng.choice([2, 3, 0x81])])
         mm["ins"][k][j] = (key, val2)
